@@ -256,19 +256,21 @@ def WF (env : Env) (c : Ctx) : LEnv → Expr → Prop
   | l, .forRange q qe lo hi body =>
       (q = .num → WF env c l qe ∧ tyOf c qe = .int ∧ eval env l qe ≠ .undef) ∧
       WF env c l lo ∧ WF env c l hi ∧ tyOf c lo = .int ∧ tyOf c hi = .int ∧ c.vars.length < 4 ∧
-      (∀ b, eval env l hi = .int b → b < C.INT64_MAX) ∧
+      (∀ a b, eval env l lo = .int a → eval env l hi = .int b →
+        C.INT64_MIN ≤ a ∧ b < C.INT64_MAX ∧ b - a < 1152921504606846975) ∧
       (∀ v, v ∈ intRange (eval env l lo) (eval env l hi) →
         WF env { c with vars := c.vars ++ [.int] } { l with vars := l.vars ++ [v] } body ∧
-        BoolWord (eval env { l with vars := l.vars ++ [v] } body))
+        BoolWord (eval env { l with vars := l.vars ++ [v] } body) ∧ v ≠ .int C.UNDEF)
   | l, .forEnum q qe items body =>
       (q = .num → WF env c l qe ∧ tyOf c qe = .int ∧ eval env l qe ≠ .undef) ∧
-      WFList env c l items ∧ c.vars.length < 4 ∧
+      WFList env c l items ∧ c.vars.length < 4 ∧ items.length < 1152921504606846976 ∧
       (∀ v, v ∈ evalList env l items →
         WF env { c with vars := c.vars ++ [match items with | [] => Ty.int | e :: _ => tyOf c e] }
            { l with vars := l.vars ++ [v] } body ∧
         BoolWord (eval env { l with vars := l.vars ++ [v] } body))
   | l, .forOf q qe set body =>
       (q = .num → WF env c l qe ∧ tyOf c qe = .int ∧ eval env l qe ≠ .undef) ∧ c.vars.length < 4 ∧
+      set.length < 1152921504606846976 ∧
       (∀ n, n ∈ set →
         WF env { c with vars := c.vars ++ [.bool], ofSlot := some (4 * c.vars.length + 3) }
            { vars := l.vars ++ [.undef], cur := some n } body ∧
